@@ -4,7 +4,7 @@ re-checks — the modules of the functions the property's behaviour is built fro
 import os
 OB = '/verif/lean/obligations'
 USES = {
- 'C01': ['Slice', 'SliceFns', 'Str', 'StrFns', 'Chr', 'Bytes', 'Bytes2', 'BytesTrim', 'Chars', 'SliceIter', 'Split', 'SplitTerm', 'Array', 'CStr'],
+ 'C01': ['Slice', 'SliceFns', 'Str', 'StrFns', 'Chr', 'Bytes', 'Bytes2', 'BytesTrim', 'Chars', 'SliceIter', 'Split', 'SplitTerm', 'Array', 'CStr', 'SliceIter2'],
  'C11': ['Array'],
  'C15': ['Array'],
  'C02': ['Slice', 'SliceFns', 'SliceIter'],
@@ -13,12 +13,12 @@ USES = {
  'C05': ['Bytes', 'Bytes2', 'BytesTrim', 'StrFns'],
  'C06': ['Slice', 'Str', 'Bytes', 'Bytes2', 'StrFns', 'Split', 'SplitTerm'],
  'C07': ['Chr', 'Str', 'Slice', 'StrFns', 'Chars'],
- 'C08': ['Slice', 'SliceFns', 'SliceIter'],
- 'C09': ['Range'],
+ 'C08': ['Slice', 'SliceFns', 'SliceIter', 'SliceIter2'],
+ 'C09': ['Range', 'RangeIter'],
  'C12': ['Str', 'ParseInt', 'ParsePrim'],
  'C13': ['Str', 'StrFns', 'ParserA', 'ParserB', 'ParseInt'],
  'C14': ['Bytes', 'Bytes2', 'BytesTrim', 'StrFns', 'ParserA', 'ParserB', 'ParseInt'],
- 'C16': ['Cmp'],
+ 'C16': ['Cmp', 'Cmp2'],
  'C18': ['StrFns', 'ParserA'],
  'C20': ['Chr', 'Slice', 'Concat', 'CStr'],
 }
